@@ -211,13 +211,68 @@ theorem special_inner_irrel (i1 i2 : Inner) (mode : Mode) (c : Nat) (name : Stri
   simp only []
   split <;> first | rfl | (exfalso; exact h rfl) | exact scriptCmd_inner_irrel ..
 
-theorem runInner_eq_runCommand' (mode : Mode) (c : Nat) (sig : Sig) (raw : List Bytes) (h : sig.name ≠ "exec")
+/-- the dummy innermost runner (an EXEC cannot be queued) -/
+abbrev nestedStub : Inner := fun _ _ => do fault "nested exec"; return none
+
+/-- EXEC's nested runner on a queued script command: the direct script runner -/
+theorem runInner_script (mode : Mode) (c : Nat) (sig : Sig) (raw : List Bytes)
+    (hs : scriptNames.contains sig.name = true) :
+    runInner mode c sig raw = runScriptCmd mode c sig raw false := by
+  unfold runInner
+  simp only [hs, ↓reduceIte]
+
+/-- EXEC's nested runner on every other queued command -/
+theorem runInner_not_script (mode : Mode) (c : Nat) (sig : Sig) (raw : List Bytes)
     (hs : scriptNames.contains sig.name = false) :
+    runInner mode c sig raw = runWith (special (fun _ _ => do fault "nested exec"; return none)) mode c sig raw false := by
+  unfold runInner
+  simp only [hs, Bool.false_eq_true, ↓reduceIte]
+
+theorem scriptNames_contains_iff {n : String} : scriptNames.contains n = true ↔ n ∈ scriptNames := by
+  simp only [List.contains_iff_mem]
+
+theorem scriptNames_contains_false_iff {n : String} : scriptNames.contains n = false ↔ n ∉ scriptNames := by
+  rw [← scriptNames_contains_iff]
+  cases scriptNames.contains n <;> simp
+
+/-- a regular (pure) command is not a script command -/
+theorem regular_notScript {n : String} {body : Body} (h : Cmd.regular n = some body) :
+    scriptNames.contains n = false := by
+  cases hc : scriptNames.contains n with
+  | false => rfl
+  | true =>
+    exfalso
+    simp only [scriptNames, List.contains_cons, List.contains_nil, Bool.or_false, Bool.or_eq_true, beq_iff_eq] at hc
+    have e1 : Cmd.regular "eval" = none := rfl
+    have e2 : Cmd.regular "evalsha" = none := rfl
+    have e3 : Cmd.regular "script" = none := rfl
+    rcases hc with hc | hc | hc <;> subst hc
+    · rw [e1] at h; cases h
+    · rw [e2] at h; cases h
+    · rw [e3] at h; cases h
+
+theorem runInner_regular_eq (mode : Mode) (c : Nat) (sig : Sig) (raw : List Bytes) {body : Body}
+    (h : Cmd.regular sig.name = some body) :
+    runInner mode c sig raw = runWith (special (fun _ _ => do fault "nested exec"; return none)) mode c sig raw false :=
+  runInner_not_script mode c sig raw (regular_notScript h)
+
+/-- a property of both runners is a property of EXEC's nested runner -/
+theorem runInner_cases {P : M (Option Reply) → Prop} (mode : Mode) (c : Nat) (sig : Sig) (raw : List Bytes)
+    (h1 : scriptNames.contains sig.name = true → P (runScriptCmd mode c sig raw false))
+    (h2 : scriptNames.contains sig.name = false → P (runWith (special (fun _ _ => do fault "nested exec"; return none)) mode c sig raw false)) :
+    P (runInner mode c sig raw) := by
+  cases hs : scriptNames.contains sig.name with
+  | true => rw [runInner_script mode c sig raw hs]; exact h1 hs
+  | false => rw [runInner_not_script mode c sig raw hs]; exact h2 hs
+
+/-- EXEC runs a queued command exactly as the client's direct request would be run - script commands included -/
+theorem runInner_eq_runCommand' (mode : Mode) (c : Nat) (sig : Sig) (raw : List Bytes) (h : sig.name ≠ "exec") :
     runInner mode c sig raw = runCommand mode c sig raw false := by
   unfold runInner runCommand
-  simp only [hs, Bool.false_eq_true, ↓reduceIte]
-  unfold runWith
-  simp only [special_inner_irrel _ (runInner mode c) mode c sig.name _ _ h]
+  split
+  · rfl
+  · unfold runWith
+    simp only [special_inner_irrel _ (runInner mode c) mode c sig.name _ _ h]
 
 theorem cleanupClosed_run_nil {s : Sys} (h : s.srv.closedSockets = []) : cleanupClosed s = ((), s) := by
   unfold cleanupClosed
